@@ -5,13 +5,13 @@ package main
 import (
 	"bufio"
 	"bytes"
-	"net"
-	"net/http"
 	"encoding/binary"
 	"encoding/hex"
 	"encoding/json"
 	"fmt"
 	"io"
+	"net"
+	"net/http"
 	"os"
 	"sort"
 	"strconv"
@@ -55,14 +55,14 @@ func (t *Trace) DumpStats() {
 
 // Srv is a real server plus the trace of what was done to it.
 type Srv struct {
-	E    *Env
-	T    *Trace
-	Keys map[glow.PublicKey]bool // every public key that appeared in the scenario
-	Full bool                    // emit full snapshots instead of hashes
-	Lost bool                    // a loopback UDP datagram never arrived: the scenario is abandoned (not a finding)
-	InStart bool                 // a (re)start is in progress (kill points are not armed inside the start-up catch-up)
-	Pending string               // the operation in flight (written to the trace by a crash point that kills the process)
-	seen map[string]bool         // oracle rows already written
+	E       *Env
+	T       *Trace
+	Keys    map[glow.PublicKey]bool // every public key that appeared in the scenario
+	Full    bool                    // emit full snapshots instead of hashes
+	Lost    bool                    // a loopback UDP datagram never arrived: the scenario is abandoned (not a finding)
+	InStart bool                    // a (re)start is in progress (kill points are not armed inside the start-up catch-up)
+	Pending string                  // the operation in flight (written to the trace by a crash point that kills the process)
+	seen    map[string]bool         // oracle rows already written
 }
 
 func NewSrv(name string, seed uint64, t *Trace) (*Srv, error) {
